@@ -904,7 +904,14 @@ class Exec(Verifier):
         if con is not None and con.ghost:
             stmts = [n for n in _walk_stmts(fdef.body)]
             for g in con.ghost:
-                hits = [st_ for st_ in stmts if header_text(st_) == g.anchor]
+                if g.where == "exit":
+                    continue
+                if g.anchor.endswith("..."):
+                    hits = [st_ for st_ in stmts if header_text(st_).startswith(g.anchor[:-3])]
+                else:
+                    hits = [st_ for st_ in stmts if header_text(st_) == g.anchor]
+                if len(hits) <= g.occurrence and g.optional:
+                    continue
                 if len(hits) <= g.occurrence:
                     raise SourceError("%s: ghost anchor `%s` (occurrence %d) not found in the real source" % (qualname, g.anchor, g.occurrence))
                 tgt = hits[g.occurrence]
@@ -1063,6 +1070,9 @@ class Exec(Verifier):
             raise Unsupported("break/continue outside loop")
 
     def check_post(self, con, res):
+        for g in con.ghost:
+            if g.where == "exit":
+                self.run_ghost(g.code)
         env = dict(self.st.loc)
         for k, v in self.entry_loc.items():
             env[k] = v
